@@ -8,6 +8,7 @@ mod marshalh;
 mod parse;
 mod pathnorm;
 mod pred;
+mod subty;
 mod replh;
 mod util;
 
@@ -22,6 +23,7 @@ fn main() {
         "tsort" => graph::run_tsort(&rest),
         "pathnorm" => pathnorm::run(&rest),
         "pred" => pred::run(&rest),
+        "subtype" => subty::run(&rest),
         "marshal" => marshalh::run_marshal(&rest),
         "pycread" => marshalh::run_pycread(&rest),
         "repl-frame" => replh::run_frame(&rest),
